@@ -296,7 +296,7 @@ func (m *vmachine) dump() string {
 			continue
 		}
 		nf++
-		if k > 24 {
+		if k > 300 {
 			fmt.Fprintf(&sb, " %d 999 %d %d", m.baseFrame()+uint64(f), k, vmHash(p))
 			continue
 		}
@@ -378,7 +378,48 @@ func (m *vmachine) syncWin(va uintptr) {
 	}
 	if pa, ok := m.phys(page); ok && m.inArena(pa, 4096) {
 		kernel.Memcopy(pa, page, 4096)
+	} else {
+		kernel.Memset(page, 0, 4096)
 	}
+}
+
+func (m *vmachine) inWin(va uintptr) bool {
+	return va >= m.win && va < m.win+uintptr(vmWinPages)<<12
+}
+
+// leafEntry returns the leaf entry of va if all upper levels are present (hardware view).
+func (m *vmachine) leafEntry(va uintptr) (uint64, bool) {
+	table := m.cr3 & hwPhysMask
+	for level := 0; level < 4; level++ {
+		if !m.inArena(table, 4096) {
+			return 0, false
+		}
+		e := *vmWord(table + ((va>>hwShifts[level])&511)*8)
+		if level == 3 {
+			return e, true
+		}
+		if e&1 == 0 || (level > 0 && e&(1<<7) != 0) {
+			return 0, false
+		}
+		table = uintptr(e) & hwPhysMask
+	}
+	return 0, false
+}
+
+// tableOf returns the frame number of the level-`level` table on va's path (0 = root), if present.
+func (m *vmachine) tableOf(va uintptr, level int) (uint64, bool) {
+	table := m.cr3 & hwPhysMask
+	for l := 0; l < level; l++ {
+		if !m.inArena(table, 4096) {
+			return 0, false
+		}
+		e := *vmWord(table + ((va>>hwShifts[l])&511)*8)
+		if e&1 == 0 {
+			return 0, false
+		}
+		table = uintptr(e) & hwPhysMask
+	}
+	return uint64(table >> 12), m.inArena(table, 4096)
 }
 
 // exec runs one op (tokens as printed in the trace) against the real code.
@@ -439,6 +480,9 @@ func (m *vmachine) exec(op []uint64, name string) (string, bool) {
 	case "fill":
 		m.fillPattern(op[0], op[1])
 		return m.run(func() (int, uint64) { return 0, 0 })
+	case "poke": // harness writes one word of physical memory (sets up entry bits the API cannot)
+		*vmWord(uintptr(op[0])<<12 + uintptr(op[1])*8) = op[2]
+		return m.run(func() (int, uint64) { return 0, 0 })
 	case "setz":
 		ReservedZeroedFrame, protectReservedZeroedPage = mm.Frame(op[0]), op[1] != 0
 		return m.run(func() (int, uint64) { return 0, 0 })
@@ -449,6 +493,9 @@ func (m *vmachine) exec(op []uint64, name string) (string, bool) {
 		return m.run(func() (int, uint64) { return vmErrCode(reserveZeroedFrame()), 0 })
 	case "pf":
 		readCR2Fn = func() uint64 { return op[0] }
+		if e, ok := m.leafEntry(uintptr(op[0])); ok && e&1 != 0 && e&2 == 0 && e&0x200 != 0 && !m.inWin(uintptr(op[0])) {
+			panic("verif: generator produced a recoverable fault outside the host-backed window")
+		}
 		m.syncWin(uintptr(op[0]))
 		return m.run(func() (int, uint64) {
 			regs := gate.Registers{Info: op[1]}
